@@ -121,13 +121,26 @@ func (mediaType *MediaType) Validate(ctx context.Context, opts ...ValidationOpti
 	if mediaType == nil {
 		return nil
 	}
-	if schema := mediaType.Schema; schema != nil {
+	// the rules of the examples themselves do not depend on there being a schema to check them against
+	if mediaType.Example != nil && mediaType.Examples != nil {
+		return errors.New("example and examples are mutually exclusive")
+	}
+	if schema := mediaType.Schema; schema == nil {
+		if vo := getValidationOptions(ctx); !vo.examplesValidationDisabled {
+			names := make([]string, 0, len(mediaType.Examples))
+			for name := range mediaType.Examples {
+				names = append(names, name)
+			}
+			sort.Strings(names)
+			for _, k := range names {
+				if err := mediaType.Examples[k].Validate(ctx); err != nil {
+					return fmt.Errorf("example %s: %w", k, err)
+				}
+			}
+		}
+	} else {
 		if err := schema.Validate(ctx); err != nil {
 			return err
-		}
-
-		if mediaType.Example != nil && mediaType.Examples != nil {
-			return errors.New("example and examples are mutually exclusive")
 		}
 
 		if vo := getValidationOptions(ctx); !vo.examplesValidationDisabled {
